@@ -56,6 +56,8 @@ pub struct Ghost {
     pub tainted_nodes: BTreeSet<NodeId>,
     /// (term, highest index) each node has acknowledged in a released MsgAppendResponse of that term
     pub acked: BTreeMap<NodeId, (u64, u64)>,
+    /// highest index a node acknowledged per term: (node, term) -> index
+    pub acked_in_term: BTreeMap<(NodeId, u64), u64>,
     /// forwarded read requests (receiver, ctx) already delivered once; receivers that got a duplicate
     pub read_forward_seen: BTreeSet<(NodeId, Vec<u8>)>,
     pub dup_read_at: BTreeSet<NodeId>,
@@ -83,6 +85,7 @@ impl Ghost {
             tainted_terms: BTreeSet::new(),
             tainted_nodes: BTreeSet::new(),
             acked: BTreeMap::new(),
+            acked_in_term: BTreeMap::new(),
             read_forward_seen: BTreeSet::new(),
             dup_read_at: BTreeSet::new(),
         }
